@@ -153,7 +153,7 @@ def run(ctx):
                        "`Goal close_R (model args x) y_impl tol. Proof. tr_solve. Qed.` per evaluation)")
     import time
     t0 = time.time()
-    proved = cm.prove(ctx, extractors=["c01"], extra_targets=["Proofs/TransformTac.vo"])
+    proved = cm.prove(ctx, extractors=["c01", "pygen"], extra_targets=["Proofs/TransformTac.vo", "Props/PyTie.vo"])
     t_prove = time.time() - t0
     cm.use_impl()
     from hydrodiy.stat import transform as T   # noqa: F401
